@@ -81,3 +81,24 @@ def raiser(x):
 
 def long_finite(n):
     return loopy_helper.spin_n(n) + spin(n)
+
+
+def stubborn_nap(d, x):
+    """Blocks, and swallows whatever is raised when it wakes up (a bare-except wrapper as found in retry loops):
+    a thread abandoned in here still completes its statement later."""
+    try:
+        time.sleep(d)
+        r = 1 if x > 2 else 0
+    except BaseException:  # noqa: BLE001
+        r = -1
+    return r
+
+
+def use_twice(x):
+    if x > 2:
+        y = x * 2
+    else:
+        y = x
+    if y % 2 == 0:
+        return "even"
+    return "odd"
